@@ -390,6 +390,7 @@ type c07Outcome struct {
 	OffsetMs  int64
 	Browser   string
 	AdminReq  bool // after the handshake, send an admin API request through the tunnel
+	Prior     bool `json:",omitempty"` // the user's session with this id already exists when the probe arrives
 }
 
 var c07AdminUID = []byte("c07-admin-user!!")
@@ -505,12 +506,39 @@ func c07Inner(c c07Outcome) (vk.Result, error) {
 		defer cdn.front.Close()
 		dialer = cdn.dialer()
 	}
-	tr := remote.Transport.CreateTransport()
-	conn, _ := dialer.Dial("tcp", "x")
 	type hs struct {
 		key [32]byte
 		err error
 	}
+	if c.Prior {
+		// the same user already has this very session (opened legitimately, with the served method): the probe below
+		// then asks to JOIN an existing session - every condition still applies to it
+		pcfg := cfg
+		pcfg.Method = "shadowsocks"
+		_, premote, pauth, perr := vMustProcess(pcfg, srv.pub, time.Now)
+		if perr != nil {
+			return res, fmt.Errorf("harness: %v", perr)
+		}
+		pauth.SessionId = c.Sid
+		ptr := premote.Transport.CreateTransport()
+		pconn, _ := dialer.Dial("tcp", "x")
+		pch := make(chan hs, 1)
+		go func() {
+			k, err := ptr.Handshake(pconn, pauth)
+			pch <- hs{k, err}
+		}()
+		synctest.Wait()
+		select {
+		case <-pch:
+		default:
+		}
+		mu.Lock()
+		redirConns, redirGot = 0, nil
+		mu.Unlock()
+		defer pconn.Close()
+	}
+	tr := remote.Transport.CreateTransport()
+	conn, _ := dialer.Dial("tcp", "x")
 	ch := make(chan hs, 1)
 	go func() {
 		k, err := tr.Handshake(conn, auth)
@@ -534,7 +562,10 @@ func c07Inner(c c07Outcome) (vk.Result, error) {
 	mu.Unlock()
 	label := fmt.Sprintf("user=%s", c.User)
 	res.Labels = append(res.Labels, label, "transport="+strings.ToLower(c.Transport))
-	res.Key = fmt.Sprintf("%s/%v/%s/%v/%s/%v/%v", c.User, c.Sid == 0, c.Method, c.WrongKey, strings.ToLower(c.Transport), tsOK, c.AdminReq)
+	res.Key = fmt.Sprintf("%s/%v/%s/%v/%s/%v/%v/%v", c.User, c.Sid == 0, c.Method, c.WrongKey, strings.ToLower(c.Transport), tsOK, c.AdminReq, c.Prior)
+	if c.Prior {
+		res.Labels = append(res.Labels, "session-already-exists")
+	}
 	if want {
 		if !replied {
 			return res, vk.ViolateSig("valid-rejected", "a valid, timely handshake (user %s, sid %d, %s) got no handshake reply", c.User, c.Sid, c.Transport)
@@ -661,6 +692,7 @@ func TestVerif_C07_Outcome(t *testing.T) {
 			OffsetMs:  rapid.SampledFrom([]int64{0, 0, 0, 170000, -170000, 200000, -200000, 86400000}).Draw(rt, "offset"),
 			Browser:   rapid.SampledFrom([]string{"chrome", "firefox", "safari"}).Draw(rt, "browser"),
 		}
+		c.Prior = rapid.IntRange(0, 2).Draw(rt, "prior") == 0
 		return c
 	}, func(c c07Outcome) (vk.Result, error) {
 		var res vk.Result
